@@ -7,7 +7,7 @@ for k in (1, 2, 3):
     M = os.path.join(wt, "MUTANTS")
     if not os.path.exists(os.path.join(M, "m%d.patch.diff" % k)):
         continue
-    d = "/verif/seeded/%s-m%d" % (pid, k)
+    d = "/verif/seeded/%s-m%d" % (pid, k + int(os.environ.get("MUT_OFFSET", "0")))
     os.makedirs(d, exist_ok=True)
     shutil.copy(os.path.join(M, "m%d.patch.diff" % k), os.path.join(d, "patch.diff"))
     shutil.copy(os.path.join(M, "m%d.demo_test.go" % k), os.path.join(d, "demo_test.go.txt"))
